@@ -67,7 +67,15 @@ PairsOver(base, C(_)) ==
     UNION {{[base EXCEPT ![nn[1]] = c1, ![nn[2]] = c2] : c1 \in C(nn[1]), c2 \in C(nn[2])} :
             nn \in {m \in OptNames \X OptNames : m[1] # m[2]}}
 OptPairs == PairsOver(BaseO, OptClasses)
-OptTriples(n0) == UNION {PairsOver([BaseO EXCEPT ![n0] = c0], OptClasses) : c0 \in OptClasses(n0)}
+\* triples over a core of classes per option (one valid, one or two malformed, chosen at the decoding boundaries);
+\* the full product of all classes is sampled by the orchestration (seeded), not enumerated
+CoreClasses(n) ==
+    {"absent"} \cup
+    CASE n = "name" -> {"special"} [] n = "mode" -> {"direct", "upper"} [] n = "rmin" -> {"plus", "spacey"}
+      [] n = "rmax" -> {"zero", "huge"} [] n = "repl" -> {"neg"} [] n = "shard" -> {"big", "plus"}
+      [] n = "ualloc" -> {"qm", "spaced"} [] n = "expire" -> {"in1s", "inneg"} [] n = "meta" -> {"prefixy", "special"}
+      [] n = "update" -> {"v1"} [] n = "origins" -> {"onlyp2p", "spaced"}
+OptTriples(n0) == UNION {PairsOver([BaseO EXCEPT ![n0] = c0], CoreClasses) : c0 \in CoreClasses(n0)}
 
 WithO(r, ctx, os) == {[CanonR(r) EXCEPT !.cfg = ctx[1], !.cred = ctx[2], !.o = o] : o \in os}
 \* the same with the other valid / invalid CID and path shapes
@@ -101,9 +109,9 @@ RouteCases(r, level) ==
                  \cup (IF level = "thorough" THEN WithA(r, AddPairs, BaseO) ELSE {})
             ELSE {})
     \cup (IF level = "thorough" /\ r \in CarryRoutes
-            THEN UNION {WithO(r, Open, OptTriples(n0)) : n0 \in OptNames} \cup WithOAlt(r, OptPairs)
-                 \cup WithO(r, Right, OptPairs)
+            THEN UNION {WithO(r, Open, OptTriples(n0)) : n0 \in OptNames} \cup WithO(r, Right, OptPairs)
             ELSE {})
+    \cup (IF level = "thorough" /\ r.name \in {"Pin", "PinPath"} THEN WithOAlt(r, OptPairs) ELSE {})
 
 \* ---- the bundled client ---------------------------------------------------
 ClientRoutes == Routes
